@@ -72,7 +72,12 @@ def run_case(case):
         try:
             p = wholefile.read_text(text, limit, sc)
             rng = random.Random(script_seed)
-            script = edits.gen_script(rng, p, nedits) if nedits else []
+            if "script" in case:  # a stored history (corpus)
+                script = case["script"]
+                for e in script:
+                    edits.apply(p, e)
+            else:
+                script = edits.gen_script(rng, p, nedits) if nedits else []
             out["script"] = script
             g1 = wholefile.write_text(p, sc, "g1.imcnp")
         except Exception as e:  # noqa: BLE001
@@ -172,8 +177,19 @@ def judge(case, r):
     return out
 
 
+# stored histories that run first: minimised past failures (each is named in known_findings.json under "fixed")
+CORPUS = [
+    # 5ea339d: a shared entry imp:n,p edited apart and together again was written imp:p,n after an observation
+    {"name": "corpus-particle-order", "limit": 128, "seed": 161015, "nedits": 2,
+     "script": [["importance", 0, "n", 8.0], ["importance_all", 0, 0.0]],
+     "text": "shared importance entry\n46 54 -5.045 (57 -134 -37)\n127 54 -1.5676 134 : 162\n\n37 sph -50. +0.414 14. 50.0\n"
+             "57 c/y -50.0 50 50.\n134 c/z -4.63 5.8702 17.\n162 sz -50.0 27\n\nm54 40090.80c 0.203 8016.80c 0.4 6000.80c 0.412\n"
+             "mode n p\nimp:n,p 4 2.0\n\n"},
+]
+
+
 def gen_cases(chk):
-    cases = []
+    cases = [dict(c, seed=c["seed"] + k) for c in CORPUS for k in range(4)]
     for name, text in wholefile.fixtures():
         if any(l.lstrip().lower().startswith("read ") for l in text.split("\n")):
             continue
@@ -182,7 +198,7 @@ def gen_cases(chk):
     n = chk.pick(160, 4000)
     for i in range(n):
         r = chk.rng("gen", i)
-        gp = genprob.generate(r)
+        gp = genprob.generate(r, features=genprob.DEFAULT_FEATURES | {"lattice"}) if i % 4 == 1 else genprob.generate(r)
         limit = 80 if i % 3 == 0 else 128
         text = genprob.render(gp, r, limit=limit, style="random" if i % 2 else "plain")
         cases.append({"name": f"gen{i}", "limit": limit, "text": text, "seed": r.randrange(10**6), "nedits": [0, 2, 5, 8][i % 4]})
